@@ -14,6 +14,7 @@
    machine with the property's closing rules. *)
 From Tx Require Import Lib.Base Model.AuthText Model.AuthServer Spec.AuthSpec Proofs.AuthProofs.
 From Tx Require Model.Framing Spec.FramingSpec Proofs.AuthFramingBridge.
+From Tx Require Import Model.CookieStore Proofs.CookieStoreProofs.
 From Tx Require Gen.Generated.
 Local Open Scope N_scope.
 
@@ -289,6 +290,67 @@ Theorem C06_wrong_cookie_never :
                  [cc; sha1hex (colon (e_chal E (w_made w)) (colon cc (e_cookie E (w_made w))))]) ->
      fst r2 <> VOk).
 Proof. exact wrong_cookie_never. Qed.
+
+(* ----- several connections, one keyring file --------------------------------------
+   Model/CookieStore.v: the cookie file of the bus process as the list of its lines
+   (id, cookie), shared by any number of connections whose cookie exchanges
+   interleave arbitrarily: Start c (_create_cookie: id = largest id + 1, line
+   appended), Finish c response (_step_two: the first line with the id is removed,
+   the hash compared), Cancel c (cancel()), Drop c (connection lost, nothing
+   cleaned up); all within the cookie lifetime.  [run alloc_max ... (sys0 st) evs]
+   is the state after the events evs, started on a file st.
+
+   For every initial file with distinct ids and EVERY interleaving, the ids in the
+   file stay pairwise distinct; every exchange in progress finds its own cookie as
+   the first line with its id, and no other connection holds that id. *)
+Theorem C06_cookie_ids_distinct :
+  forall (cookie chal : nat -> bytes) (sha1hex : bytes -> bytes) (st : kstore) (evs : list sev),
+    NoDup (ids st) ->
+    let s := run alloc_max cookie chal sha1hex (sys0 st) evs in
+    NoDup (ids (k_store s)) /\
+    (forall c x, k_held s c = Some x ->
+       lookup (x_id x) (k_store s) = Some (x_cookie x) /\
+       (forall c' x', k_held s c' = Some x' -> x_id x' = x_id x -> c' = c)).
+Proof.
+  intros cookie chal sha1hex st evs H. split; [apply ids_distinct; exact H|].
+  intros c x Hc. apply (holder_reads_own cookie chal sha1hex st evs c x H Hc).
+Qed.
+
+(* Hence a conforming client - it reads the cookie of the first line carrying the id
+   it was given, as ClientAuthenticator._authGetDBusCookie does, and answers
+   "cc sha1hex(challenge:cc:cookie)" - is accepted by _step_two whatever other
+   exchanges overlap with its own (cc and the hash being tokens, SHA-1 any function). *)
+Theorem C06_accepts_cookie_concurrent :
+  forall (cookie chal : nat -> bytes) (sha1hex : bytes -> bytes) (st : kstore) (evs : list sev)
+         (c : nat) (x : exch) (cc : bytes),
+    NoDup (ids st) ->
+    let s := run alloc_max cookie chal sha1hex (sys0 st) evs in
+    k_held s c = Some x ->
+    is_token cc -> is_token (sha1hex (colon (x_chal x) (colon cc (x_cookie x)))) ->
+    snd (step alloc_max cookie chal sha1hex s
+              (Finish c (client_response sha1hex (k_store s) x cc))) = Some VOk.
+Proof. exact accepts_concurrent. Qed.
+
+(* The id rule matters: with  cookie_id = len(cookies) + 1  the interleaving
+   A starts, B starts, A finishes, C starts  leaves two lines with id 2; C's
+   conforming client reads B's cookie and is REJECTED.  (Same events with the real
+   rule: ids 2 and 3.)  This is also the non-vacuity instance of the two theorems
+   above: an exchange in progress (C) with other exchanges overlapping. *)
+Theorem C06_cookie_ids_by_count_refuted :
+  let s := run alloc_len w_cookie w_chal w_sha (sys0 []) w_events in
+  ids (k_store s) = [2; 2] /\
+  (exists x, k_held s 2%nat = Some x /\ x_cookie x = w_cookie 2 /\
+             lookup (x_id x) (k_store s) = Some (w_cookie 1) /\
+             snd (step alloc_len w_cookie w_chal w_sha s
+                       (Finish 2 (client_response w_sha (k_store s) x [97]))) = Some VReject) /\
+  let s' := run alloc_max w_cookie w_chal w_sha (sys0 []) w_events in
+  ids (k_store s') = [2; 3].
+Proof. exact len_alloc_collides. Qed.
+
+(* the id rule of this model is the one of the single-connection model above *)
+Theorem C06_cookie_store_same_rule :
+  forall st : kstore, alloc_max st = next_id (map fst st).
+Proof. reflexivity. Qed.
 
 (* ----- the tree before the repairs ---------------------------------------------
    D11: on the legacy model AUTH ANONYMOUS zz is not answered as the state
